@@ -39,6 +39,13 @@ PROPS = {
         "trivial_tags": [],
         "level_text": "wip", "level_note": "wip",
     },
+    "C08": {
+        "theorems": [],
+        "suites": [{"name": "reader", "quick": 1500, "thorough": 40000}],
+        "required_tags": ["reader.adapter:enveloping", "reader.adapter:transforming", "reader:cut", "reader:valid"],
+        "trivial_tags": [],
+        "level_text": "wip", "level_note": "wip",
+    },
 }
 
 NOT_APPLICABLE = {}
